@@ -607,6 +607,33 @@ func (it *Interp) mutexLock(fr *frame, p *Value, write bool) {
 	if it.lockLog != nil {
 		it.lockLog.lock(fr, p)
 	}
+	it.noteLockOrder(fr)
+}
+
+// noteLockOrder records which goroutine acquired a mutex of the package under test (the
+// mutexes the native replay build replaces by order-enforcing ones).
+func (it *Interp) noteLockOrder(fr *frame) {
+	if fr != nil && fr.fn != nil && fr.fn.Name() == "Lock" {
+		fr = fr.caller // the model's own frame: look at the caller
+	}
+	if it.sched == nil || len(it.sched.gs) < 2 || fr == nil || fr.fn == nil {
+		return
+	}
+	pkg := fr.fn.Package()
+	if pkg == nil && fr.fn.Origin() != nil {
+		pkg = fr.fn.Origin().Package()
+	}
+	if pkg == nil && fr.fn.Parent() != nil {
+		pkg = fr.fn.Parent().Package()
+	}
+	if pkg == nil || pkg.Pkg.Path() != it.targetPkg || strings.HasPrefix(fr.fn.Name(), "verif") || strings.HasPrefix(fr.fn.Name(), "Verif") {
+		return
+	}
+	id := 0
+	if fr.g != nil {
+		id = fr.g.id
+	}
+	it.mstate.lockOrder = append(it.mstate.lockOrder, id)
 }
 
 func (it *Interp) mutexTryLock(fr *frame, p *Value) bool {
@@ -735,6 +762,9 @@ func init() {
 		if tab[p] == nil {
 			tab[p] = new(int)
 		}
+		if it.lockLog != nil {
+			it.lockLog.release(it.sched.cur, p)
+		}
 		*tab[p]--
 		if *tab[p] < 0 {
 			panic(targetPanic{implicit: "sync: negative WaitGroup counter"})
@@ -751,6 +781,9 @@ func init() {
 		}
 		c := tab[p]
 		it.blockUntil(fr, "WaitGroup.Wait", func() bool { return *c == 0 })
+		if it.lockLog != nil {
+			it.lockLog.acquire(it.sched.cur, p)
+		}
 		return nil
 	})
 }
